@@ -245,7 +245,7 @@ def c08_load_one_shot_increment : Bool := false
 def c08_load_single_increments : Bool := true
 
 /-- has types/validator_set.go computeNewPriorities -/
-def c08_new_priority_penalty : Bool := true
+def c08_new_priority_penalty : Bool := false
 
 /-- cond state/store.go dbStore.saveValidatorsInfo -/
 def c08_saveValidatorsInfo_stored_iff : String := "height == lastHeightChanged || height%valSetCheckpointInterval == 0"
